@@ -497,6 +497,15 @@ def run(ctx):
     leg_a(ctx, bdir)
     leg_b(ctx, bdir)
     ctx.extra.pop("_bd_asan", None)
+    # leg (c): the call sites the Compiler generates (x86rapass / a64rapass are C06's code too): arguments and return values of
+    # invoke() as observed by recording callees on the SysV host (Invoke.tla, locations from ABI.tla) and the static callers for
+    # x86-32 / Win64 / AAPCS64 (InvokeStatic.tla). These are the executed / static legs of the extension check X06, run under
+    # this property's id; findings listed for X06 count here as well.
+    import x06
+    ctx.known.update(vlib.load_known("X06"))
+    with ThreadPoolExecutor(max_workers=2) as ex:
+        for f in [ex.submit(x06.part_a, ctx), ex.submit(x06.part_c, ctx)]:
+            f.result()
     ctx.assumptions += ASSUMPTIONS
     vlib.write_evidence(ctx, "model_checking",
         rule="evaluations = signatures classified by the real FuncDetail::init() and judged by TLC against ABI.tla + instructions of real emit_args_assignment() "
@@ -513,6 +522,10 @@ def replay(ctx, path):
     recs = vlib.read_ndjson(path)
     if not recs:
         raise Broken("empty replay file")
+    if any(r.get("e") in ("Scenario", "Static") for r in recs) or ("cargs" in recs[0] and "e" not in recs[0]):
+        import x06           # a replay file of leg (c)
+        ctx.known.update(vlib.load_known("X06"))
+        return x06.replay(ctx, path)
     bdir = ctx.build("asan", "funcabi")
     rec = recs[0]
     ip, op = ctx.path("replay_in.ndjson"), ctx.path("replay_out.ndjson")
